@@ -428,6 +428,123 @@ func runC14(cfg Config) {
 		c14ts.Close()
 		c14ts = nil
 	}
+	// (c') index names over HTTP: a name is a name, not a URL reference — '#', '?', ':', '%', spaces and encoded
+	// separators in it must neither change which object is stored or fetched nor reach outside the store,
+	// directly and through an index server whose upstream is another HTTP index store
+	{
+		base := filepath.Join(cfg.Work, "idxnames")
+		os.RemoveAll(base)
+		os.MkdirAll(filepath.Join(base, "indexes"), 0755)
+		os.MkdirAll(filepath.Join(base, "private"), 0755)
+		mkIdx := func(k int) desync.Index {
+			var ch []desync.IndexChunk
+			for i := 0; i < 1+k; i++ {
+				ch = append(ch, desync.IndexChunk{ID: desync.Digest.Sum([]byte{byte(k), byte(i)}), Start: uint64(i * 10), Size: 10})
+			}
+			return desync.Index{Index: desync.FormatIndex{FeatureFlags: desync.CaFormatSHA512256 | desync.CaFormatExcludeNoDump, ChunkSizeMin: 1, ChunkSizeAvg: 10, ChunkSizeMax: 10}, Chunks: ch}
+		}
+		secret := mkIdx(7)
+		sf, _ := os.Create(filepath.Join(base, "private", "secret.caibx"))
+		secret.WriteTo(sf)
+		sf.Close()
+		lis, _ := desync.NewLocalIndexStore(filepath.Join(base, "indexes"))
+		inner := httptest.NewServer(http.StripPrefix("/indexes", desync.NewHTTPIndexHandler(lis, true, "")))
+		defer inner.Close()
+		// a plain file server over the parent directory (what a web server in front of the indexes may be)
+		files := httptest.NewServer(http.FileServer(http.Dir(base)))
+		defer files.Close()
+		sameIdx := func(a, b desync.Index) bool {
+			if len(a.Chunks) != len(b.Chunks) {
+				return false
+			}
+			for i := range a.Chunks {
+				if a.Chunks[i] != b.Chunks[i] {
+					return false
+				}
+			}
+			return true
+		}
+		names := []string{"plain.caibx", "release#1.caibx", "release#2.caibx", "what?x=1.caibx", "image:1.caibx", "50%.caibx", "a b.caibx",
+			"%2e%2e%2fprivate%2fsecret.caibx", "..%2fprivate%2fsecret.caibx", "x%23y.caibx", "+plus.caibx", "semi;colon.caibx"}
+		for _, via := range []string{"direct", "proxy"} {
+			target := inner.URL + "/indexes/"
+			var closeProxy func()
+			if via == "proxy" {
+				uu, _ := url.Parse(inner.URL + "/indexes/")
+				up, err := desync.NewRemoteHTTPIndexStore(uu, desync.StoreOptions{})
+				if err != nil {
+					fatal(err)
+				}
+				px := httptest.NewServer(desync.NewHTTPIndexHandler(up, true, ""))
+				target = px.URL + "/"
+				closeProxy = px.Close
+			}
+			u, _ := url.Parse(target)
+			for k, name := range names {
+				caseLine := fmt.Sprintf("index.name via=%s name=%s", via, hx([]byte(name)))
+				rep.Count(caseLine, true, "index-name:"+via)
+				res := guard(func() string {
+					cl, err := desync.NewRemoteHTTPIndexStore(u, desync.StoreOptions{})
+					if err != nil {
+						return "client-error"
+					}
+					// never stored so far: must be reported as missing (an error), never as some index
+					if got, err := cl.GetIndex(name); err == nil {
+						if sameIdx(got, secret) {
+							return "read an index outside the served store"
+						}
+						return "an index that was never stored is reported present"
+					}
+					want := mkIdx(k % 5)
+					if err := cl.StoreIndex(name, want); err != nil {
+						return "store failed: " + err.Error()
+					}
+					got, err := cl.GetIndex(name)
+					if err != nil {
+						return "stored index cannot be fetched: " + err.Error()
+					}
+					if !sameIdx(got, want) {
+						return "fetched index differs from the stored one"
+					}
+					if _, err := os.Stat(filepath.Join(base, "indexes", name)); err != nil {
+						return "the store does not hold the index under the name it was given"
+					}
+					return "ok"
+				})
+				if res != "ok" {
+					monitor("index "+fmt.Sprintf("%q", name)+" over HTTP ("+via+"): "+res, caseLine)
+				}
+				os.Remove(filepath.Join(base, "indexes", name))
+			}
+			// nothing may have appeared outside the store, and the secret is untouched
+			if ents, _ := os.ReadDir(filepath.Join(base, "private")); len(ents) != 1 {
+				monitor("an index upload over HTTP ("+via+") created an object outside the served store", "index.name via="+via)
+			}
+			if ents, _ := os.ReadDir(base); len(ents) != 2 {
+				monitor("an index upload over HTTP ("+via+") created an object next to the served store", "index.name via="+via)
+			}
+			if closeProxy != nil {
+				closeProxy()
+			}
+		}
+		// an index server in front of a web server: encoded separators must not walk out of the upstream path
+		{
+			uu, _ := url.Parse(files.URL + "/indexes/")
+			up, _ := desync.NewRemoteHTTPIndexStore(uu, desync.StoreOptions{})
+			h := desync.NewHTTPIndexHandler(up, false, "")
+			for _, raw := range []string{"/%252e%252e%252fprivate%252fsecret.caibx", "/..%252fprivate%252fsecret.caibx", "/%2e%2e%2fprivate%2fsecret.caibx"} {
+				req := httptest.NewRequest("GET", "http://x"+raw, nil)
+				w := httptest.NewRecorder()
+				guard(func() string { h.ServeHTTP(w, req); return "" })
+				caseLine := "index.proxy-escape path=" + raw
+				rep.Count(caseLine, true, "index-proxy-escape")
+				if w.Code == 200 && w.Body.Len() > 0 {
+					monitor("an index server whose upstream is an HTTP store served an object outside the upstream store path for "+raw, caseLine)
+				}
+			}
+		}
+	}
+
 	// (e) chunks fetched over one casync-protocol session stay intact while later requests use the same session:
 	// held chunk objects, and a chunk server whose client is slow to take the body (overlapping requests)
 	for it := 0; it < cfg.N(60, 1500); it++ {
